@@ -241,7 +241,7 @@ def run(ctx):
     files = sorted(p for p in glob.glob(os.path.join(build.REPO, 'test', 'archives', '*', '*')) if os.path.isfile(p) and os.path.getsize(p) < 65536)
     corpus = [open(p, 'rb').read() for p in files]
     nsh = 16
-    per = 1300 if ctx.tier == 'quick' else 190000
+    per = 4000 if ctx.tier == 'quick' else 190000
     core.run_shards(ctx, shard, [(ctx.seed * 211 + i, per, corpus, ctx.tier) for i in range(nsh)])
     try:
         cov = line_coverage(b, ctx.seed * 211, corpus, 2500 if ctx.tier == 'quick' else 20000)
@@ -260,7 +260,7 @@ def run(ctx):
     os.makedirs(base, exist_ok=True)
     os.chmod(base, 0o755)
     jobs = []
-    for n in range(1500 if ctx.tier == 'quick' else 100000):
+    for n in range(4000 if ctx.tier == 'quick' else 100000):
         r = rnd.random()
         if r < 0.45:
             a, kin = mutate(rnd, rnd.choice(corpus)), 'mutated-corpus'
